@@ -1,0 +1,95 @@
+//go:build verif
+
+// Contracts for deductive verification (read as text by /verif/engine; this
+// file is never compiled into the package: it is comment-only and guarded
+// by the build tag verif).
+
+package attr
+
+// ---------------------------------------------------------------------------
+// C19: attribute sets are values.
+// bit(x, k) is bit k of x. rep(s) is the representation invariant: the map
+// holds exactly the keys whose bit is set in attrBits (all below 64).
+
+//@ pred rep(s Set) = forall(k, 0, 256, has(s.attrs, uint8(k)) == (k < 64 && bit(s.attrBits, k)))
+
+// Compare: Mask, then attrBits, then the values in ascending key order.
+// Strongest postcondition in first-difference form.
+
+//@ func Set.Compare
+//@   ensures -1 <= result && result <= 1
+//@   ensures iff(result == 0, s.Mask == other.Mask && s.attrBits == other.attrBits &&
+//@           forall(k, 0, 64, imp(bit(s.attrBits, k), s.attrs[uint8(k)] == other.attrs[uint8(k)])))
+//@   ensures iff(result < 0, s.Mask < other.Mask || (s.Mask == other.Mask && s.attrBits < other.attrBits) ||
+//@           (s.Mask == other.Mask && s.attrBits == other.attrBits &&
+//@            exists(w, 0, 64, bit(s.attrBits, w) && s.attrs[uint8(w)] < other.attrs[uint8(w)] &&
+//@                   forall(k, 0, w, imp(bit(s.attrBits, k), s.attrs[uint8(k)] == other.attrs[uint8(k)])))))
+//@   ensures iff(result > 0, s.Mask > other.Mask || (s.Mask == other.Mask && s.attrBits > other.attrBits) ||
+//@           (s.Mask == other.Mask && s.attrBits == other.attrBits &&
+//@            exists(w, 0, 64, bit(s.attrBits, w) && s.attrs[uint8(w)] > other.attrs[uint8(w)] &&
+//@                   forall(k, 0, w, imp(bit(s.attrBits, k), s.attrs[uint8(k)] == other.attrs[uint8(k)])))))
+//@   loop 0
+//@     invariant forall(k, 0, 64, imp(bit(remBits, k), bit(s.attrBits, k)))
+//@     invariant forall(k, 0, 64, imp(bit(s.attrBits, k) && !bit(remBits, k),
+//@               s.attrs[uint8(k)] == other.attrs[uint8(k)] && forall(j, 0, 64, imp(bit(remBits, j), k < j))))
+//@     decreases remBits
+//@   property C19
+
+// The order laws follow from Compare's contract alone (Compare is referenced
+// by symbol; its contract above is the only thing known about it).
+
+//@ opaque Set.Compare
+
+//@ lemma Set.Compare.refl
+//@   vars a Set
+//@   ensures a.Compare(a) == 0
+//@   property C19
+
+//@ lemma Set.Compare.antisym
+//@   vars a, b Set
+//@   ensures a.Compare(b) == -b.Compare(a)
+//@   property C19
+
+//@ lemma Set.Compare.trans
+//@   vars a, b, c Set
+//@   requires a.Compare(b) <= 0 && b.Compare(c) <= 0
+//@   ensures a.Compare(c) <= 0
+//@   property C19
+
+// Equal exactly when the same flags and the same key/value pairs are held.
+//@ lemma Set.Compare.zero
+//@   vars a, b Set
+//@   requires rep(a) && rep(b) && hint(bvdiff(a.attrBits, b.attrBits))
+//@   ensures iff(a.Compare(b) == 0, a.Mask == b.Mask &&
+//@           forall(k, 0, 256, has(a.attrs, uint8(k)) == has(b.attrs, uint8(k)) &&
+//@                  imp(has(a.attrs, uint8(k)), a.attrs[uint8(k)] == b.attrs[uint8(k)])))
+//@   property C19
+
+// SetAttr keeps the representation invariant and changes exactly one key.
+//@ func (*Set).SetAttr
+//@   requires s != nil && key < 64 && rep(*s)
+//@   ensures rep(*s)
+//@   ensures has(s.attrs, key) && s.attrs[key] == value
+//@   ensures s.Mask == old(s.Mask)
+//@   ensures forall(k, 0, 256, imp(uint8(k) != key, has(s.attrs, uint8(k)) == old(has(s.attrs, uint8(k))) &&
+//@                  s.attrs[uint8(k)] == old(s.attrs[uint8(k)])))
+//@   property C19
+
+//@ func Set.GetAttr
+//@   ensures result1 == has(s.attrs, key) && imp(result1, result0 == s.attrs[key])
+//@   property C19
+
+// Clone returns the same flags and pairs in a map of its own, and leaves the
+// original untouched: later writes to either cannot reach the other.
+//@ func Set.Clone
+//@   ensures result.Mask == s.Mask && result.attrBits == s.attrBits
+//@   ensures fresh(result.attrs)
+//@   ensures forall(k, 0, 256, has(result.attrs, uint8(k)) == has(s.attrs, uint8(k)) &&
+//@                  imp(has(s.attrs, uint8(k)), result.attrs[uint8(k)] == s.attrs[uint8(k)]))
+//@   ensures forall(k, 0, 256, has(s.attrs, uint8(k)) == old(has(s.attrs, uint8(k))) && s.attrs[uint8(k)] == old(s.attrs[uint8(k)]))
+//@   loop 0
+//@     invariant fresh(c.attrs) && c.Mask == s.Mask && c.attrBits == s.attrBits
+//@     invariant forall(k, 0, 256, imp(seen(uint8(k)), has(s.attrs, uint8(k)) && has(c.attrs, uint8(k)) && c.attrs[uint8(k)] == s.attrs[uint8(k)]))
+//@     invariant forall(k, 0, 256, imp(has(c.attrs, uint8(k)), seen(uint8(k))))
+//@     invariant forall(k, 0, 256, has(s.attrs, uint8(k)) == old(has(s.attrs, uint8(k))) && s.attrs[uint8(k)] == old(s.attrs[uint8(k)]))
+//@   property C19
